@@ -28,7 +28,7 @@ m = {
         "add_only": True,
     },
     "engines": [{"name": "vf", "path": "/verif/vf.py",
-                 "serves_properties": sorted(CHECKS),
+                 "serves_properties": sorted(set(CHECKS) & set(open(os.path.join(VERIF, "claimed.txt")).read().split())),
                  "kind_free_text": "runtime monitoring: seeded stress/perturbation harnesses built against the current "
                                    "/repo tree under gcc TSan, ASan+UBSan(+LSan) and plain -O2, with online shadow-state "
                                    "assertions and offline history checkers"}],
@@ -37,8 +37,10 @@ m = {
     "notes": "Exit codes: 0 held on what was observed, 1 violation (VIOLATION line), 2 inconclusive / harness failure. "
              "Known genuine defects are listed in /verif/known_findings.json.",
 }
+# only checks the lead has validated (silent soak on the unchanged tree) are claimed
+claimed = set(open(os.path.join(VERIF, "claimed.txt")).read().split())
 for pid in props:
-    if pid in CHECKS:
+    if pid in CHECKS and pid in claimed:
         c = CHECKS[pid]
         m["checks"].append({
             "property_id": pid,
